@@ -1,0 +1,30 @@
+//! Child module of `io_uring_backend::zmtp_handler` (declared there by one
+//! `#[cfg(rzmq_verif)] #[path] mod` line): calls the handler's private delivery path and reads
+//! its private flags. Nothing here changes the handler.
+use super::ZmtpUringHandler;
+use crate::protocol::zmtp::actions::{AppAction, EngineOutput};
+use crate::io_uring_backend::connection_handler::HandlerIoOps;
+use crate::message::FrameBatch;
+use std::sync::atomic::Ordering;
+
+/// (spillover length, is_throttled, is_closing, close_deadline armed, ingress sender attached)
+pub(crate) fn flags(h: &ZmtpUringHandler) -> (usize, bool, bool, bool, bool) {
+  (
+    h.spillover.len(),
+    h.is_throttled.load(Ordering::Acquire),
+    h.is_closing,
+    h.close_deadline.is_some(),
+    h.ingress_sender.is_some(),
+  )
+}
+
+/// `apply_engine_output` on an output that holds exactly one `DeliverMessage`
+pub(crate) fn deliver(h: &mut ZmtpUringHandler, batch: FrameBatch) -> HandlerIoOps {
+  let mut out = EngineOutput::new();
+  out.app_actions.push(AppAction::DeliverMessage(batch));
+  h.apply_engine_output(out)
+}
+
+pub(crate) fn drain(h: &mut ZmtpUringHandler) {
+  h.try_drain_spillover()
+}
